@@ -347,6 +347,51 @@ def _split_parallel(target, value) -> List[ast.stmt]:
     return [ast.Assign(targets=[target], value=value)]
 
 
+def _split_parallel_any(target, value) -> Optional[List[ast.stmt]]:
+    """`a, b = x, y` and `a, b = (x1, y1) if c else (x2, y2)` as a sequence of single assignments, in an order in
+    which no right-hand side reads a name assigned before it (self-assignments dropped); None when there is no such
+    order (a swap) or the value is not made of tuples"""
+    if not (isinstance(target, (ast.Tuple, ast.List)) and all(isinstance(t, ast.Name) for t in target.elts)):
+        return None
+    n = len(target.elts)
+    if isinstance(value, (ast.Tuple, ast.List)) and len(value.elts) == n:
+        rhs = list(value.elts)
+    elif isinstance(value, ast.IfExp) and all(isinstance(b, (ast.Tuple, ast.List)) and len(b.elts) == n for b in (value.body, value.orelse)) and _pure_expr(value.test):
+        rhs = []
+        for k in range(n):
+            a, b = value.body.elts[k], value.orelse.elts[k]
+            if isinstance(a, ast.Constant) and isinstance(b, ast.Constant) and a.value is True and b.value is False:
+                rhs.append(copy.deepcopy(value.test))
+            elif isinstance(a, ast.Constant) and isinstance(b, ast.Constant) and a.value is False and b.value is True:
+                rhs.append(ast.UnaryOp(op=ast.Not(), operand=copy.deepcopy(value.test)))
+            elif ast.dump(a) == ast.dump(b):
+                rhs.append(a)
+            else:
+                rhs.append(ast.IfExp(test=copy.deepcopy(value.test), body=a, orelse=b))
+    else:
+        return None
+    comps = [(t.id, v) for t, v in zip(target.elts, rhs)]
+    if len({t for t, _ in comps}) != n:
+        return None
+    out = []
+    remaining = list(comps)
+    while remaining:
+        pick = None
+        for c in remaining:
+            if not any(c[0] in _names_used(o[1]) for o in remaining if o is not c):
+                pick = c
+                break
+        if pick is None:
+            return None
+        remaining.remove(pick)
+        if isinstance(pick[1], ast.Name) and pick[1].id == pick[0]:
+            continue
+        if isinstance(pick[1], ast.IfExp) and isinstance(pick[1].orelse, ast.Name) and pick[1].orelse.id == pick[0] and False:
+            continue
+        out.append(ast.Assign(targets=[ast.Name(id=pick[0], ctx=ast.Store())], value=pick[1]))
+    return out
+
+
 class _Rename(ast.NodeTransformer):
     def __init__(self, mp):
         self.mp = mp
@@ -440,6 +485,7 @@ class ModuleNormalizer:
                 self._fold_constant_tests(q, node)
             self._drop_unused_nested(q, node)
             self._drop_self_assignments(node)
+            self._ifelse_blocks_to_ifexp(q, node)
             self._split_tuple_assigns(q, node)
             self._loops_to_comprehensions(q, node)
             self._inline_aliases(q, node)
@@ -783,6 +829,16 @@ class ModuleNormalizer:
                 i = 0
                 while i < len(stmts):
                     s_ = stmts[i]
+                    if q in self.fn and isinstance(s_, ast.Assign) and len(s_.targets) == 1 and isinstance(s_.targets[0], (ast.Tuple, ast.List)) and all(isinstance(t, ast.Name) for t in s_.targets[0].elts) and (any(t.id not in frozen and t.id not in {a.arg for a in node.args.args} for t in s_.targets[0].elts) or getattr(s_, "_qv_inlined", False) or isinstance(s_.value, ast.IfExp)):
+                        # a parallel assignment that involves a name the reference function does not have, or that
+                        # chooses between two tuples (no reference function does that)
+                        parts = _split_parallel_any(s_.targets[0], s_.value)
+                        if parts is not None:
+                            parts = [_relocate(x, s_) for x in parts]
+                            stmts[i : i + 1] = parts
+                            self.log.append(f"{q}: parallel assignment `{ast.unparse(s_)[:60]}` split")
+                            i += len(parts)
+                            continue
                     if q in self.fn and isinstance(s_, ast.Assign) and len(s_.targets) == 1 and isinstance(s_.targets[0], (ast.Tuple, ast.List)) and isinstance(s_.value, (ast.Tuple, ast.List)) and all(isinstance(t, ast.Name) and t.id not in frozen and t.id not in {a.arg for a in node.args.args} for t in s_.targets[0].elts):
                         parts = _split_parallel(s_.targets[0], s_.value)
                         if len(parts) > 1 or (len(parts) == 1 and isinstance(parts[0].targets[0], ast.Name)):
@@ -868,6 +924,78 @@ class ModuleNormalizer:
                     stmts[i] = ast.copy_location(new, s_)
                     ast.fix_missing_locations(stmts[i])
                     self.log.append(f"{q}: if/else assignment of {a.targets[0].id} written as a conditional expression")
+
+    def _ifelse_blocks_to_ifexp(self, q: str, node):
+        """`if c: a = x; b = y` / `else: a = z`  ->  `a = x if c else z; b = y if c else b`, when both branches are
+        made of plain assignments to distinct names (at least one branch assigns a tuple of them), c is pure and an
+        order exists in which neither c nor a later right-hand side reads a name assigned before it"""
+        for parent in [node] + [n for n in _own_nodes(node) if not isinstance(n, (ast.FunctionDef, ast.AsyncFunctionDef, ast.ClassDef, ast.Lambda))]:
+            for field in ("body", "orelse", "finalbody"):
+                stmts = getattr(parent, field, None)
+                if not isinstance(stmts, list):
+                    continue
+                i = 0
+                while i < len(stmts):
+                    s_ = stmts[i]
+                    i += 1
+                    if not (isinstance(s_, ast.If) and s_.body and s_.orelse and _pure_expr(s_.test)):
+                        continue
+
+                    def simple(block):
+                        out = {}
+                        tupled = False
+                        for b in block:
+                            if not (isinstance(b, ast.Assign) and len(b.targets) == 1):
+                                return None, False
+                            t = b.targets[0]
+                            if isinstance(t, ast.Name):
+                                parts = [b]
+                            elif isinstance(t, (ast.Tuple, ast.List)):
+                                parts = _split_parallel_any(t, b.value)
+                                tupled = True
+                                if parts is None:
+                                    return None, False
+                            else:
+                                return None, False
+                            for p_ in parts:
+                                nm = p_.targets[0].id
+                                if nm in out or any(nm in _names_used(v) for v in out.values()) or any(k in _names_used(p_.value) for k in out):
+                                    return None, False
+                                out[nm] = p_.value
+                        return out, tupled
+
+                    A, ta = simple(s_.body)
+                    B, tb = simple(s_.orelse)
+                    if A is None or B is None or not (ta or tb):
+                        continue
+                    names = list(dict.fromkeys(list(A) + list(B)))
+                    comps = []
+                    for nm in names:
+                        a = A.get(nm, ast.Name(id=nm, ctx=ast.Load()))
+                        b = B.get(nm, ast.Name(id=nm, ctx=ast.Load()))
+                        if isinstance(a, ast.Constant) and isinstance(b, ast.Constant) and a.value is True and b.value is False:
+                            v = copy.deepcopy(s_.test)
+                        elif isinstance(a, ast.Constant) and isinstance(b, ast.Constant) and a.value is False and b.value is True:
+                            v = ast.UnaryOp(op=ast.Not(), operand=copy.deepcopy(s_.test))
+                        else:
+                            v = ast.IfExp(test=copy.deepcopy(s_.test), body=a, orelse=b)
+                        comps.append((nm, v))
+                    order = []
+                    remaining = list(comps)
+                    ok = True
+                    while remaining:
+                        pick = next((c for c in remaining if not any(c[0] in _names_used(o[1]) for o in remaining if o is not c)), None)
+                        if pick is None:
+                            ok = False
+                            break
+                        remaining.remove(pick)
+                        order.append(pick)
+                    if not ok:
+                        continue
+                    new = [_relocate(ast.Assign(targets=[ast.Name(id=nm, ctx=ast.Store())], value=v), s_) for nm, v in order]
+                    stmts[i - 1 : i] = new
+                    i += len(new) - 1
+                    self.log.append(f"{q}: if/else blocks assigning {names} written as conditional expressions")
 
     def _mutation_free(self, node, stmts, i, v) -> bool:
         """between the binding stmts[i] of a pure-expression local v and its uses nothing can change what the
